@@ -12,6 +12,7 @@ package main
 //@ func main [C20]
 //@   flag checks=-panic
 //@   check auth-first: !isnil(app) && authConfigured(cfg) ==> app.g_auth
+//@   at BasicAuthMiddleware with-the-configured-credentials: arg0 == cfg.Setting.AUTH_SETTINGS.BASIC.Username && arg1 == cfg.Setting.AUTH_SETTINGS.BASIC.Password
 
 // Not verified: they install no middleware on the router (frame only).
 //@ func initPyro
